@@ -49,7 +49,7 @@ func genC04(r *Rng) *Plan {
 		p.Steps = append(p.Steps, Step{Op: "get", B: first, Host: host, Target: r.Pick("/", "/private/x", "/oauth2/auth"), Dt: r.PickDur(cfg.ValidTTL+3*time.Second, cfg.TokenTTL+3*time.Second),
 			Twin: &Step{Op: "get", B: second, Host: host, Target: r.Pick("/", "/private/y", "/oauth2/auth")}})
 	}
-	n := r.Range(5, 30)
+	n := r.Steps(5, 30)
 	adminP := r.Pick("none", "low", "mid")
 	for i := 0; i < n; i++ {
 		if adminP != "none" && r.Chance(map[string]int{"low": 1, "mid": 3}[adminP], 12) {
@@ -138,7 +138,7 @@ func genC05(r *Rng) *Plan {
 		p.Steps = append(p.Steps, Step{Op: "get", B: "b1", Host: host, Target: "/episode-2-still", Dt: r.PickDur(cfg.ValidTTL+3*time.Second, cfg.GraceTTL-5*time.Second, cfg.GraceTTL+5*time.Second)})
 		p.Steps = append(p.Steps, Step{Op: "l2", Sub: "clear"})
 	}
-	n := r.Range(4, 24)
+	n := r.Steps(4, 24)
 	outage := 0 // remaining requests of the current outage
 	for i := 0; i < n; i++ {
 		gap := posDur(landmark(r, cfg))
@@ -232,7 +232,7 @@ func genC01(r *Rng) *Plan {
 		p.Steps = append(p.Steps, Step{Op: "get", B: first, Host: h, Target: r.Pick("/", "/private/x", "/oauth2/auth"), Dt: due,
 			Twin: &Step{Op: "get", B: second, Host: h, Target: r.Pick("/", "/private/y", "/oauth2/auth")}})
 	}
-	n := r.Range(6, 30)
+	n := r.Steps(6, 30)
 	for i := 0; i < n; i++ {
 		b := r.Pick("b1", "b2", "attacker")
 		host := hosts[r.Intn(nUp)]
